@@ -349,6 +349,13 @@ def analyse(line, probe_ans, model_ans, run_ans, info, assignments):
             continue
         if got != want:
             out.append(("table", "%s: checker %r, model %r (masks nil=1 false=2 true=4 1=8 2=16 \"a\"=32)" % (what, got, want)))
+    x_mask0 = at(info["x_line"], name="x")
+    if x_mask0 is not None:
+        w = mo["ty"]
+        wi = w | 24 if w & 24 else w          # `x := e` widens the literal types 1, 2 to Int
+        wb = w | 6 if w & 6 else w            # and, depending on their normal form, true / false to Bool
+        if x_mask0 not in (w, wi, wb, wi | wb):
+            out.append(("table", "type of the condition (as declared type of `x := cond`): checker %d, model %d (widened %d)" % (x_mask0, w, wi | wb)))
     if rejected:
         out.append(("rejected", head))
         return out
@@ -400,7 +407,7 @@ def check_lines(ctx, lines, label, tag="N"):
     ok = True
     rejected = 0
     machinery = 0
-    reported = 0
+    fails, tables = [], []
     for i, ln in enumerate(lines):
         src, info, asg = progs[i]
         findings = analyse(ln, probes[i], model[i], runs.get(i), info, asg)
@@ -411,26 +418,27 @@ def check_lines(ctx, lines, label, tag="N"):
             ctx.stat("finding:" + kind)
             if kind == "rejected":
                 rejected += 1
-                continue
-            if kind == "machinery":
+            elif kind == "machinery":
                 machinery += 1
                 if machinery <= 2:
                     ctx.extra.setdefault("machinery_samples", []).append({"line": ln, "detail": detail})
-                continue
-            if reported >= 6:
-                ok = False
-                continue
-            reported += 1
-            inp = {"line": ln, "program": src}
-            if kind in ("unsound", "eval"):
-                new = ctx.violation("property-fails", inp, detail)
-            else:
-                new = ctx.violation("model-impl-disagree", dict(inp, correspondence=label), detail, no_input=True)
-            if new:
-                ok = False
-            else:
-                reported -= 1
-            break
+        bad = [f for f in findings if f[0] in ("unsound", "eval")]
+        tab = [f for f in findings if f[0] == "table"]
+        if bad:
+            fails.append((len(src), ln, src, bad[0][1]))
+        elif tab:
+            tables.append((len(src), ln, src, tab[0][1]))
+    # report the property failures (a value outside a static type) first, smallest programs first
+    for _, ln, src, detail in sorted(fails)[:4]:
+        if ctx.violation("property-fails", {"line": ln, "program": src}, detail):
+            ok = False
+    if fails and len(fails) > 4:
+        ok = ok and False
+    for _, ln, src, detail in sorted(tables)[:(2 if fails else 4)]:
+        if ctx.violation("model-impl-disagree", {"line": ln, "program": src, "correspondence": label}, detail, no_input=True):
+            ok = False
+    ctx.stat("lines-with-property-failure", len(fails))
+    ctx.stat("lines-with-table-mismatch", len(tables))
     ctx.obligation(f"{label}: checker types = Lean tables and runtime values inside static types on {len(lines)} generated conditions",
                    ok, "correspondence")
     ctx.obligation(f"{label}: harness answered every program ({machinery} machinery problems)", machinery <= max(1, len(lines) // 20),
@@ -596,7 +604,7 @@ def run(ctx):
         check_lines(ctx, [rp["input"]["line"]], "narrowing", "R")
         return
     corpus = vlib.corpus_lines("C02")
-    lines = corpus + [gen_line(ctx.rng) for _ in range(ctx.n(110, 5000))]
+    lines = corpus + [gen_line(ctx.rng) for _ in range(ctx.n(110, 3000))]
     check_lines(ctx, lines, "narrowing")
     check_witnesses(ctx)
     check_sweep(ctx, SWEEP + SWEEP_KNOWN)
